@@ -687,6 +687,7 @@ func runC11R5(c *Ctx) {
 		}
 		c.Check("C11-R5", "beginTx-passes-writable", bt.Pos(), ok, "beginTx does not pass its writable flag to bbolt.Begin")
 	}
+	checkDriverOpenFlags(c, "C11-R5")
 	// no type assertion to read-write interfaces in production packages
 	n := 0
 	for _, fn := range p.RepoFuncs {
@@ -723,4 +724,98 @@ func errVarOf(call *ssa.Call) *ssa.Alloc {
 		}
 	}
 	return nil
+}
+
+// checkDriverOpenFlags: "read-only transactions cannot modify anything" starts at the handle: a database opened with the
+// read-only flag must reach bbolt as ReadOnly. The driver's two entry points hand the opener several bools in a row
+// (no-freelist-sync, create, read-only); the rule pins each to its source: `create` is the constant false in the function
+// registered as Driver.Open and the constant true in Driver.Create; `readOnly` and `noFreelistSync` are the parsed
+// arguments #3 and #1 of the driver call (the documented order: path, no-freelist-sync, timeout, read-only); and the
+// opener stores its readOnly parameter into bbolt's Options.ReadOnly.
+func checkDriverOpenFlags(c *Ctx, rule string) {
+	p := c.P
+	slots := map[string]*ssa.Function{}
+	for _, fn := range p.FuncsIn(bdbPkg) {
+		for _, b := range fn.Blocks {
+			for _, ins := range b.Instrs {
+				st, ok := ins.(*ssa.Store)
+				if !ok {
+					continue
+				}
+				fa, ok := st.Addr.(*ssa.FieldAddr)
+				if !ok {
+					continue
+				}
+				tn, f := fieldAddrName(fa)
+				if tn != "Driver" || (f != "Open" && f != "Create") {
+					continue
+				}
+				if g := fnValueOf(st.Val); g != nil {
+					slots[f] = g
+				}
+			}
+		}
+	}
+	c.Floor(rule, "registered driver entry points", len(slots), 2)
+	// the index of the driver argument a value was parsed from
+	argIndexOf := func(v ssa.Value) (int64, bool) {
+		sl := &Slicer{P: p, ThroughReturns: func(g *ssa.Function) bool { return fnPkgPath(g) == rootMod+"/"+bdbPkg }}
+		for _, o := range sl.Origins(v) {
+			var cur ssa.Value = o
+			for hops := 0; hops < 4; hops++ {
+				switch x := cur.(type) {
+				case *ssa.Extract:
+					cur = x.Tuple
+					continue
+				case *ssa.TypeAssert:
+					cur = x.X
+					continue
+				case *ssa.UnOp:
+					if ia, ok := x.X.(*ssa.IndexAddr); ok {
+						return constInt(ia.Index)
+					}
+				}
+				break
+			}
+		}
+		return 0, false
+	}
+	for slot, g := range slots {
+		for _, ci := range callsOf(g) {
+			call, ok := ci.(*ssa.Call)
+			if !ok {
+				continue
+			}
+			callee := call.Call.StaticCallee()
+			if callee == nil || fnPkgPath(callee) != fnPkgPath(g) {
+				continue
+			}
+			cr := p.argNamed(call, "create", -1)
+			if cr == nil {
+				continue
+			}
+			b, isC := constBool(stripConv(cr))
+			c.Check(rule, "driver-create-flag:"+slot, call.Pos(), isC && b == (slot == "Create"),
+				"the function registered as Driver."+slot+" does not hand the opener create="+fmt.Sprint(slot == "Create")+" as a constant: another flag of the call has taken its place")
+			for name, want := range map[string]int64{"readOnly": 3, "noFreelistSync": 1} {
+				a := p.argNamed(call, name, -1)
+				if a == nil {
+					continue
+				}
+				idx, ok := argIndexOf(a)
+				c.Check(rule, "driver-flag-source:"+slot+"/"+name, call.Pos(), ok && idx == want,
+					fmt.Sprintf("the function registered as Driver.%s does not hand the opener, as %s, the driver argument #%d: a handle asked to be read-only is opened read-write (or the other way round)", slot, name, want))
+			}
+			// the opener passes the flag on to bbolt
+			okRO := false
+			for _, fn := range p.regionOf(callee) {
+				for _, st := range storesToFieldOwner(fn, "Options", "ReadOnly") {
+					if prm, ok := stripConv(st.Val).(*ssa.Parameter); ok && prm.Name() == "readOnly" {
+						okRO = true
+					}
+				}
+			}
+			c.Check(rule, "opener-passes-read-only:"+slot, callee.Pos(), okRO, "the opener does not store its readOnly parameter into bbolt's Options.ReadOnly")
+		}
+	}
 }
